@@ -83,6 +83,7 @@ func Load(repo, tier string) (*Ctx, error) {
 		return nil, fmt.Errorf("packages.Load: %w", err)
 	}
 	c := &Ctx{RepoDir: repo, Tier: tier, Lib: map[string]*packages.Package{}, SSA: map[string]*ssa.Package{}}
+	moduleFilter = c.InModule
 	var errs []string
 	for _, p := range pkgs {
 		if p.Module == nil || !p.Module.Main {
